@@ -203,14 +203,20 @@ ALL = ["C%02d" % i for i in range(1, 21)]
 # wave 8 / wave 9 strengthenings
 EXTRA2 = {
     "C02": " Data fields longer than the 256-byte randomisation sequence; recovery (next valid frame accepted) after a buffer-full of garbage.",
-    "C04": " A payload with an escape byte in front of every escapable value.",
+    "C03": " Frames written through the real send paths (send_data first transmission, repeat after a NAK, repeat after the acknowledgement time-out, receiver ACK / NAK, send_reset) for every payload length 0..200 x 5 patterns on a hand-stepped loop, compared byte for byte with the reference encoder.",
+    "C07": " History cases per version on one EZSP object: a lost reply followed by 300 further calls (a full turn of the sequence numbers), a reset of the same object (legacy layout by the fresh handler) and re-negotiation.",
+    "C11": " A host DATA frame outstanding (unacknowledged) when the RSTACK of a requested reset arrives, submitted before the request or after the RST: numbering must restart at zero.",
+    "C13": " Join histories: joins that start the manufacturer-code override with every fate of the earlier override in between (pending, finished, first / second command unanswered, refused, application disconnected and reconnected).",
+    "C15": " Start-up whose table writes time out, or time out / are refused after the first one was accepted.",
+    "C20": " Coroutine calls in flight on a real EventLoopThread at force_stop (all ordered pairs of four ways of unwinding from the cancellation, and triples): no caller may be left waiting.",
+    "C04": " A payload with an escape byte in front of every escapable value. Every frame of the alphabet and every relative pair is also fed while the transmit side of the same object has a DATA frame outstanding or has used up its retry budget.",
     "C06": " First-come first-served order is also checked inside the packet-send priority class.",
     "C09": " The same EZSP object is closed and connected again (third reset + negotiation + configuration write, with every single line fault on that connection).",
-    "C12": " Foreign confirmations of non-direct message types; packets whose set-up request (extended time-out, source route) precedes the send; multicast / broadcast packets mixed in.",
-    "C14": " The reference NCP keeps the outgoing frame counters in tokens of their own (kept across leave / key-table clear / reboot, zeroed by formNetwork only without NO_FRAME_COUNTER_RESET and by tokenFactoryReset); the prior network carries a different counter, so a counter of 0 must really be written.",
-    "C17": " Two operations waiting for one stack status; repeated scan readings for one channel.",
+    "C12": " Message tags straddling the wrap of the application's 8-bit sequence number; a successful confirmation with the request's own destination and tag while the NCP has only answered busy; the leak clause is also judged without the private container name (futures still referenced from the application's book-keeping). Foreign confirmations of non-direct message types; packets whose set-up request (extended time-out, source route) precedes the send; multicast / broadcast packets mixed in.",
+    "C14": " The reference NCP keeps the outgoing frame counters in tokens of their own (kept across leave / key-table clear / reboot, zeroed by formNetwork only without NO_FRAME_COUNTER_RESET and by tokenFactoryReset); the prior network carries a different counter, so a counter of 0 must really be written. A child without NWK address ahead of children with one; the NCP refuses the k-th link-key write with a transient error (the other keys must still be stored).",
+    "C17": " Two operations waiting for one stack status; repeated scan readings for one channel. Bring-up with the application's own callback handler registered: a bring-up repeated after an NCP restart must query the NCP again. Leak clause also judged without the private container names.",
     "C18": " The sweep is repeated with DEBUG logging enabled.",
-    "C19": " A successful feed whose free-buffer read is refused; connect() once more on the same application object between any two feeds (closed graph and stateless sequences): the run of failures continues across it.",
+    "C19": " A successful feed whose free-buffer read is refused; connect() once more on the same application object between any two feeds (closed graph and stateless sequences): the run of failures continues across it. Keep-alive answered only after the command time-out (the late reply, delivered between two feeds with the application's callback handler registered, is not a successful feed).",
 }
 
 
